@@ -33,6 +33,16 @@ class Node(HasTraits):
         return "N%s" % self.__dict__.get("_nid", "?")
 
 
+class EqNode(Node):
+    """Nodes with VALUE-BASED equality (two classes of equal nodes): distinct objects that compare equal."""
+
+    def __eq__(self, other):
+        return isinstance(other, EqNode) and self.__dict__.get("_eqk") == other.__dict__.get("_eqk")
+
+    def __hash__(self):
+        return hash(self.__dict__.get("_eqk"))
+
+
 LINKS = ["child", "children", "table", "group"]
 CONTAINERS = ("children", "table", "group")
 
@@ -87,6 +97,8 @@ def strategy(tier):
         # from a change of the final attribute; they are generated with quiet (':') links only, where the documentation
         # promises silence for every link change
         "sig": st.sampled_from([4, 4, 4, 1, 2]),
+        # nodes with value-based equality: an item may be replaced by a distinct object that compares EQUAL to it
+        "eqnodes": st.sampled_from([False, False, True]),
     })
 
 
@@ -105,8 +117,13 @@ def run(case, ctx):
         n.table = {}
         n.group = set()
 
+    eqn = bool(case.get("eqnodes"))
+    if eqn:
+        ctx.label("value-equal-nodes")
+
     def fresh():
-        n = Node()
+        n = EqNode() if eqn else Node()
+        n.__dict__["_eqk"] = len(created) % 2
         n.__dict__["_nid"] = len(created)
         created.append(n)
         init(n)
@@ -168,8 +185,13 @@ def run(case, ctx):
         del A[:], B[:]
         link = None
         old_vals = {"child": n.child, "children": list(n.children), "table": dict(n.table), "group": set(n.group)}
+        if eqn and k in ("set_children", "set_table", "set_group"):
+            continue          # (assigning a container that compares EQUAL to the old one is, by design, not a change)
         if k == "set_child":
-            n.child = fresh() if op[2] else None
+            new_child = fresh() if op[2] else None
+            if eqn and new_child is not None and n.child is not None and new_child == n.child:
+                new_child.__dict__["_eqk"] = 1 - new_child.__dict__["_eqk"]        # (same reason: keep it a real change)
+            n.child = new_child
             link = "child"
         elif k == "append":
             n.children.append(fresh())
